@@ -3226,6 +3226,20 @@ SKIP_HSHEADER_PARSE:
         if we've got more data in the record, the sender has packed
         multiple handshake messages in one record.  Parse the next one.
      */
+#ifdef USE_DTLS
+    if (c < end && ACTV_VER(ssl, v_dtls_any) && rc == SSL_PROCESS_DATA)
+    {
+        /* The message just parsed ended the peer's flight: our answer is
+           due and has not been encoded yet.  Nothing that belongs to this
+           handshake can follow in the record.  What does follow (a
+           duplicate, a stray fragment) is dropped here: looking at it would
+           replace SSL_PROCESS_DATA by the verdict on that message, and a
+           duplicate would ask for the resend of a flight that has never
+           been built (its cached signatures do not exist). */
+        psTraceDtls("Ignoring data behind the last message of a flight\n");
+        c = end;
+    }
+#endif /* USE_DTLS */
     if (c < end)
     {
         goto parseHandshake;
